@@ -27,6 +27,7 @@ def prepare(ctx, logs, tag=""):
     """concatenate the per-process logs (a marker line after each), write the trace and the Go string order of all variable names"""
     sd = ctx.spec_dir()
     names = set()
+    recs = {}
     n = 0
     lines_per_log = []
     with open(os.path.join(sd, "res_trace%s.ndjson" % tag), "w") as out:
@@ -45,7 +46,9 @@ def prepare(ctx, logs, tag=""):
                     for r in l["rels"]:
                         names.add(r["src"])
                         _names(r["dest"], names)
-                    out.write(line + "\n")
+                    for rc in l.pop("recs", []):
+                        recs.setdefault(json.dumps(rc["rt"]), rc)
+                    out.write(json.dumps(l) + "\n")
                     k += 1
             out.write(json.dumps(MARK) + "\n")
             lines_per_log.append(k)
@@ -53,6 +56,9 @@ def prepare(ctx, logs, tag=""):
     # Go compares strings bytewise; so does Python for str of ASCII names
     with open(os.path.join(sd, "res_ord%s.ndjson" % tag), "w") as f:
         f.write(json.dumps(sorted(names)) + "\n")
+    with open(os.path.join(sd, "res_recs%s.ndjson" % tag), "w") as f:
+        for k in sorted(recs):
+            f.write(json.dumps(recs[k]) + "\n")
     return n, lines_per_log
 
 
@@ -60,7 +66,7 @@ def validate(ctx, tag="", timeout=3000):
     """returns (lines, bad line numbers (1-based), skipped rounds)"""
     from vlib import slicecheck
     slicecheck.write_cfg(ctx, "FoResolverTrace%s.cfg" % tag,
-                         "CONSTANTS\n  TraceFile = \"res_trace%s.ndjson\"\n  OrdFile = \"res_ord%s.ndjson\"\n  Deviations = {}\nSPECIFICATION Spec\nCHECK_DEADLOCK FALSE\n" % (tag, tag))
+                         "CONSTANTS\n  TraceFile = \"res_trace%s.ndjson\"\n  OrdFile = \"res_ord%s.ndjson\"\n  RecFile = \"res_recs%s.ndjson\"\n  RecField <- TraceRecField\n  Deviations = {}\nSPECIFICATION Spec\nCHECK_DEADLOCK FALSE\n" % (tag, tag, tag))
     r = ctx.tlc("FoResolverTrace", "FoResolverTrace%s.cfg" % tag, workers=1, timeout=timeout, heap_gb=8)
     m = re.search(r'<<\s*"TRACE-END",\s*(\d+),\s*<<([\d,\s]*)>>,\s*"skipped",\s*(\d+)\s*>>', r["out"])
     if not m:
